@@ -44,58 +44,81 @@ def run(repo, rep, tier):
     pe = repo.func('policy', 'Policy.evaluate')
     rep.saw(pe)
 
-    # ---- rule 1: verdict <=> error pairing ------------------------------------------------------------
-    def blocks(node):
-        for n in ast.walk(node):
-            for fld in ('body', 'orelse', 'finalbody'):
-                b = getattr(n, fld, None)
-                if isinstance(b, list) and b and isinstance(b[0], ast.stmt):
-                    yield n, b
-    npairs = 0
-    for owner, b in blocks(pe):
-        nf = [s for s in b if isinstance(s, ast.Assign) and unparse(s) == 'ret = False']
-        ne = [s for s in b if isinstance(s, ast.Expr) and isinstance(s.value, ast.Call) and unparse(s.value.func) == 'self._append_error']
-        if nf or ne:
-            npairs += 1
-            ok = len(nf) == 1 and len(ne) == 1
-            rep.check('pairing', 'block at line %d pairs `ret = False` with one _append_error' % b[0].lineno, ok, (nf or ne)[0],
-                      'verdict and error list disagree: block has %d `ret = False` and %d _append_error' % (len(nf), len(ne)))
-    rep.floor('pairing', 'failing sites in Policy.evaluate', npairs, 15)
-    defs = [n for n in walk_no_nested(pe) if isinstance(n, (ast.Assign, ast.AugAssign)) and any(unparse(t) == 'ret' for t in (n.targets if isinstance(n, ast.Assign) else [n.target]))]
-    for d in defs:
-        ok = unparse(d) in ('ret = True', 'ret = False') and (unparse(d) != 'ret = True' or d in pe.body)
-        rep.check('pairing', 'verdict definition is the initial True or a paired False: %s' % unparse(d), ok, d, 'verdict variable defined by %s' % unparse(d))
-    rep.check('pairing', 'verdict initialised True exactly once at function level', sum(1 for d in defs if unparse(d) == 'ret = True') == 1, pe, 'verdict is not initialised exactly once to True')
-    nret = 0
-    for r in walk_no_nested(pe):
-        if isinstance(r, ast.Return):
-            nret += 1
-            ok = isinstance(r.value, ast.Tuple) and len(r.value.elts) == 3 and unparse(r.value.elts[0]) == 'ret'
-            rep.check('pairing', 'return gives (verdict, error list, error text)', ok, r, 'Policy.evaluate returns %s' % unparse(r.value)[:60])
-            # error_list/error_str come from self._get_errors() in the same block
-            blk = r._parent.body if r in getattr(r._parent, 'body', []) else getattr(r._parent, 'orelse', [])
-            src = [s for s in blk if isinstance(s, ast.Assign) and isinstance(s.value, ast.Call) and unparse(s.value.func) == 'self._get_errors']
-            names = [unparse(e) for e in r.value.elts[1:]] if ok else []
-            ok2 = len(src) == 1 and isinstance(src[0].targets[0], ast.Tuple) and [unparse(e) for e in src[0].targets[0].elts] == names
-            rep.check('pairing', 'returned error list/text come from _get_errors()', ok2, r, 'returned errors are not the accumulator rendered by _get_errors()')
-    rep.floor('pairing', 'returns of Policy.evaluate', nret, 2)
+    # ---- rules 1, 3-7: decision table by abstract interpretation (props/_policy.py) --------------------------------------------------------
+    # Policy.evaluate is interpreted for 5 policy states x ~70 peers (one attribute changed at a time, plus combinations) x both relaxation flags:
+    # on every path the verdict and the recorded errors must be those the documentation implies; verdict <=> no error; the record of a list field
+    # carries the policy's list as expected and the peer's list as actual, the record of a size its expected / actual value (not crossed).
+    from props import _policy as P
+    from sa.consteval import ConstEnv
+    consts = P.class_consts(repo, ConstEnv(repo))
+    banner = 'SSH-2.0-OpenSSH_9.9'
+    nrows = 0
+    bad = {'table': [], 'pairing': [], 'errors': [], 'monotone': []}
+    verdicts = {}
+    rows = [(pdesc, pol, desc, peer, subset, larger) for (pdesc, pol), subset, larger in itertools.product(P.policies(), (False, True), (False, True)) for desc, peer in P.peers(pol) + [('no algorithm message', None)]]
+    for pdesc, pol, desc, peer, subset, larger in rows:
+        res = P.run(repo, consts, pol, peer, subset, larger, banner)
+        want = P.expected(pol, peer, subset, larger, banner)
+        ctx = 'policy with %s, %s, subset/reordering %s, larger keys %s' % (pdesc, desc, 'allowed' if subset else 'not allowed', 'allowed' if larger else 'not allowed')
+        if len({v for v, e, r, f in res}) > 1:
+            raise AnalysisError('Policy.evaluate: the verdict for (%s) depends on a condition the analysis does not model: %s' % (ctx, [f for v, e, r, f in res][:2]))
+        for v, errs, r, forks in res:
+            nrows += 1
+            rep.evals()
+            got = [e.get('mismatched_field') for e in errs]
+            verdicts[(pdesc, desc, subset, larger)] = v
+            if sorted(set(got)) != sorted(set(want)) or v != (not want):
+                missing, extra = sorted(set(want) - set(got)), sorted(set(got) - set(want))
+                bad['table'].append('%s: verdict %s, errors %s -- the documented rule gives %s%s' % (ctx, 'PASS' if v else 'FAIL', got, 'PASS' if not want else 'FAIL with %s' % want,
+                                                                                                   ' (not reported: %s)' % missing if missing else (' (wrongly reported: %s)' % extra if extra else '')))
+            if v != (not errs):
+                bad['pairing'].append('%s: verdict %s with %d recorded error(s) %s' % (ctx, v, len(errs), got))
+            if len(r) != 3 or r[1] is not None and r[1] != errs and not isinstance(r[1], type(errs)):
+                bad['pairing'].append('%s: evaluate() returns %r' % (ctx, r))
+            for lab in set(got):
+                if got.count(lab) > (2 if lab == 'Key exchanges' else 1) and not lab.startswith(('Host key (', 'CA signature', 'Group exchange')):
+                    bad['errors'].append('%s: %d errors for the field %r' % (ctx, got.count(lab), lab))
+            for e in errs:
+                lab = e.get('mismatched_field')
+                for fld, acc, label in P.LIST_FIELDS:
+                    if lab == label and peer is not None and (e.get('expected_required') != pol[fld] or e.get('actual') != peer[acc]):
+                        bad['errors'].append('%s: the %r error reports expected=%r actual=%r (policy %r, peer %r)' % (ctx, lab, e.get('expected_required'), e.get('actual'), pol[fld], peer[acc]))
+                if isinstance(lab, str) and lab.startswith('Host key (') and peer is not None:
+                    t = lab[len('Host key ('):lab.index(')')]
+                    if e.get('expected_required') != [str(pol['_hostkey_sizes'][t]['hostkey_size'])] or e.get('actual') != [str(peer['host_keys'][t]['hostkey_size'])]:
+                        bad['errors'].append('%s: the %r error reports expected=%r actual=%r' % (ctx, lab, e.get('expected_required'), e.get('actual')))
+                if isinstance(lab, str) and lab.startswith('Group exchange (') and peer is not None:
+                    t = lab[len('Group exchange ('):lab.index(')')]
+                    if e.get('expected_required') != [str(pol['_dh_modulus_sizes'][t])] or e.get('actual') != [str(peer['dh_modulus_sizes'][t])]:
+                        bad['errors'].append('%s: the %r error reports expected=%r actual=%r' % (ctx, lab, e.get('expected_required'), e.get('actual')))
+                if lab == 'Banner' and (e.get('expected_required') != [pol['_banner']] or e.get('actual') != [banner]):
+                    bad['errors'].append('%s: the Banner error reports expected=%r actual=%r' % (ctx, e.get('expected_required'), e.get('actual')))
+    # shrinking a passing peer's lists under subset mode / growing its keys under larger-keys mode never turns a pass into a fail (the strict-kex marker stays mandatory)
+    for pdesc, pol in P.policies():
+        for larger in (False, True):
+            if verdicts.get((pdesc, 'the conforming peer', True, larger)):
+                for fld, acc, label in P.LIST_FIELDS:
+                    for how in ('last name removed', 'first name removed', 'empty'):
+                        d = '%s: %s' % (label, how)
+                        lost_marker = label == 'Key exchanges' and pol['_kex'] is not None and any(m in pol['_kex'] for m in P.STRICT) and how in ('last name removed', 'empty')
+                        if verdicts.get((pdesc, d, True, larger)) is False and not lost_marker:
+                            bad['monotone'].append('policy with %s: the conforming peer passes in subset mode, the same peer with %s fails' % (pdesc, d))
+        for subset in (False, True):
+            if verdicts.get((pdesc, 'the conforming peer', subset, True)):
+                for d, v in [(k[1], v) for k, v in verdicts.items() if k[0] == pdesc and k[2] == subset and k[3] is True and (' size +' in k[1] or 'modulus +' in k[1])]:
+                    if v is False:
+                        bad['monotone'].append('policy with %s: the conforming peer passes in larger-keys mode, the same peer with %s fails' % (pdesc, d))
+    rep.floor('table', 'policy decision rows interpreted', nrows, 1000)
+    rep.check('table', 'verdict and reported fields equal the documented matching rules on all %d rows' % nrows, not bad['table'], pe, 'policy verdict differs from the documented rule -- %s [%d rows deviate]' % (bad['table'][0] if bad['table'] else '', len(bad['table'])),
+              stmt='policy decision table', sample={'rule': 'table', 'rows': nrows})
+    rep.check('pairing', 'the verdict is PASS exactly when no error was recorded, and the error list is returned (%d rows)' % nrows, not bad['pairing'], pe, 'verdict and error list disagree -- %s' % (bad['pairing'][0] if bad['pairing'] else ''), stmt='verdict / error pairing')
+    rep.check('errors', 'every error record names its field once and carries expected (policy) and actual (peer) values, not crossed', not bad['errors'], pe, 'error record wrong -- %s' % (bad['errors'][0] if bad['errors'] else ''), stmt='error records')
+    rep.check('lists', 'shrinking lists in subset mode / growing keys in larger-keys mode keeps a passing peer passing', not bad['monotone'], pe, 'relaxation is not monotone -- %s' % (bad['monotone'][0] if bad['monotone'] else ''), stmt='relaxation monotone')
+    # a second evaluation on the same object reports the errors of both (the accumulator is never reset): decided by the fresh-instance rule below
     ge = repo.func('policy', 'Policy._get_errors')
-    rets = [r for r in walk_no_nested(ge) if isinstance(r, ast.Return)]
-    rep.check('pairing', '_get_errors returns the accumulator itself', len(rets) == 1 and isinstance(rets[0].value, ast.Tuple) and unparse(rets[0].value.elts[0]) == 'self._errors', ge, '_get_errors does not return self._errors')
-    ae = repo.func('policy', 'Policy._append_error')
-    apps = [n for n in walk_no_nested(ae) if isinstance(n, ast.Call) and unparse(n.func) == 'self._errors.append']
-    ok = len(apps) == 1 and not path_condition(apps[0])
-    rep.check('pairing', '_append_error appends exactly one record unconditionally', ok, ae, '_append_error may append zero or several records')
-    if ok and isinstance(apps[0].args[0], ast.Dict):
-        d = apps[0].args[0]
-        keys = [k.value for k in d.keys]
-        vals = [unparse(v) for v in d.values]
-        rep.check('errors', 'error record carries mismatched_field/expected/actual from the parameters',
-                  dict(zip(keys, vals)) == {'mismatched_field': 'mismatched_field', 'expected_required': 'expected_required', 'expected_optional': 'expected_optional', 'actual': 'actual'}, apps[0],
-                  'error record fields are %s' % dict(zip(keys, vals)))
-    # _get_errors renders field, expected and actual for every record
+    rep.saw(ge)
     txt = unparse(ge)
-    for need in ("e['mismatched_field']", "e['expected_required']", "e['actual']"):
+    for need in ("mismatched_field", "expected_required", "actual"):
         rep.check('errors', '_get_errors renders %s' % need, need in txt, ge, '_get_errors no longer renders %s' % need)
 
     # ---- rule 2: fresh instance ------------------------------------------------------------------------
@@ -122,218 +145,3 @@ def run(repo, rep, tier):
         if isinstance(n, ast.Call) and call_name(n) == 'audit':
             rep.check('fresh', 'worker audits with its private copy', len(n.args) > 1 and unparse(n.args[1]) == cfgvar, n, 'worker passes %s to audit instead of its private copy' % (unparse(n.args[1]) if len(n.args) > 1 else '?'))
 
-    # ---- sites --------------------------------------------------------------------------------------------
-    sites = {}
-    for n in walk_no_nested(pe):
-        if isinstance(n, ast.Call) and unparse(n.func) == 'self._append_error':
-            lab = label_of(n)
-            if lab is None:
-                raise AnalysisError('error label is not a constant: %s' % unparse(n)[:80])
-            sites.setdefault(lab, []).append(n)
-    expected_labels = {'Banner', 'Compression', 'Host keys', 'Host key (%s) sizes', 'CA signature type', 'CA signature size (%s)', 'Key exchanges', 'Ciphers', 'MACs', 'Group exchange (%s) modulus sizes'}
-    rep.check('errors', 'error labels are the documented field names', set(sites) == expected_labels, pe, 'error labels changed: %s' % sorted(set(sites) ^ expected_labels))
-
-    # ---- rule 3: list fields -------------------------------------------------------------------------------
-    for label, pfield, peer, exact_peer in LIST_FIELDS:
-        ss = sites.get(label, [])
-        want_sites = 3 if label == 'Key exchanges' else 2
-        rep.check('lists', '%s: %d failing sites' % (label, want_sites), len(ss) == want_sites, ss[0] if ss else pe, '%s has %d failing sites, expected %d' % (label, len(ss), want_sites))
-        table = {
-            '%s is not None' % pfield: 'set',
-            FLAG_SUBSET: 'flag',
-            'kex is None': '!kexp',
-        }
-        site_forms = []
-        for c in ss:
-            conds = path_condition(c)
-            local = dict(table)
-            loops = [(t, p) for t, p, k in conds if k == 'for']
-            for t, p, k in conds:
-                if k == 'for':
-                    continue
-                for cmp_ in [x for x in ast.walk(t) if isinstance(x, ast.Compare)]:
-                    txt = unparse(cmp_)
-                    if len(cmp_.ops) == 1 and isinstance(cmp_.ops[0], ast.NotIn) and unparse(cmp_.comparators[0]) == pfield and loops:
-                        # loop variable must be bound by a loop over the peer list
-                        lv = unparse(cmp_.left)
-                        it = [unparse(lt) for lt, lp in loops if lv in [unparse(x) for x in ast.walk(lt._parent.target)]] if False else None
-                        loopnode = None
-                        q = c
-                        while q is not None and not isinstance(q, ast.FunctionDef):
-                            if isinstance(q, ast.For) and lv in [x.id for x in ast.walk(q.target) if isinstance(x, ast.Name)]:
-                                loopnode = q
-                                break
-                            q = q._parent
-                        okdir = loopnode is not None and unparse(loopnode.iter) == peer
-                        rep.check('lists', '%s: subset test iterates the peer list and tests membership in the policy list' % label, okdir, cmp_,
-                                  'subset test direction wrong: iterates %s testing `%s`' % (unparse(loopnode.iter) if loopnode is not None else '?', txt))
-                        if loopnode is not None:
-                            brk = any(isinstance(x, ast.Break) for x in c._parent._parent.body) if isinstance(c._parent, ast.Expr) else False
-                            rep.check('lists', '%s: one error per field in subset mode (break after the first)' % label, brk, c, 'subset loop reports one error per offending name (no break)')
-                        local[txt] = 'exists'
-                    elif len(cmp_.ops) == 1 and isinstance(cmp_.ops[0], ast.In) and unparse(cmp_.comparators[0]) == pfield and not isinstance(cmp_.left, ast.Constant):
-                        rep.check('lists', '%s: subset test uses `not in` on the policy list' % label, False, cmp_, 'subset test inverted: `%s`' % txt)
-                        local[txt] = '!exists'
-                    elif len(cmp_.ops) == 1 and isinstance(cmp_.ops[0], (ast.NotEq, ast.Eq)) and {unparse(cmp_.left), unparse(cmp_.comparators[0])} == {exact_peer, pfield}:
-                        local[txt] = 'differ' if isinstance(cmp_.ops[0], ast.NotEq) else '!differ'
-                    elif len(cmp_.ops) == 1 and isinstance(cmp_.ops[0], (ast.NotIn, ast.In)) and unparse(cmp_.comparators[0]) == peer and not isinstance(cmp_.left, ast.Constant):
-                        rep.check('lists', '%s: subset test iterates the peer list and tests membership in the policy list' % label, False, cmp_,
-                                  'subset test direction wrong: membership is tested in the PEER list (`%s`), so a peer superset passes and a peer subset fails' % txt)
-                        local[txt] = 'exists'
-                    elif len(cmp_.ops) == 1 and isinstance(cmp_.ops[0], (ast.NotEq, ast.Eq)) and {peer, pfield} <= (uses(cmp_.left) | uses(cmp_.comparators[0])) | {exact_peer} and \
-                            any(isinstance(x, ast.Call) and isinstance(x.func, ast.Name) and x.func.id in ('set', 'sorted', 'frozenset', 'len') for x in ast.walk(cmp_)):
-                        rep.check('lists', '%s: exact mode compares the lists themselves (order and multiplicity)' % label, False, cmp_,
-                                  'exact-mode comparison `%s` ignores order/duplicates' % txt)
-                        local[txt] = 'differ'
-                    elif txt == "'%s' in %s" % (STRICT_S, pfield):
-                        local[txt] = 'sp'
-                    elif txt == "'%s' in %s" % (STRICT_C, pfield):
-                        local[txt] = 'cp'
-                    elif txt == "'%s' not in %s" % (STRICT_S, peer):
-                        local[txt] = '!sk'
-                    elif txt == "'%s' not in %s" % (STRICT_C, peer):
-                        local[txt] = '!ck'
-            site_forms.append((c, [(t, p) for t, p, k in conds if k != 'for'], text_atomizer(local)))
-        atoms = ['set', 'flag', 'exists', 'differ'] + (['sp', 'sk', 'cp', 'ck'] if label == 'Key exchanges' else [])
-        bad_rows = []
-        nrows = 0
-        for bits in itertools.product([False, True], repeat=len(atoms)):
-            val = dict(zip(atoms, bits))
-            val['kexp'] = True      # all list comparisons need a parsed kex (early return otherwise)
-            got = False
-            for c, conds, atz in site_forms:
-                if all(eval_prop(t, atz, val) == p for t, p in conds):
-                    got = True
-            strict = (val.get('sp', False) and not val.get('sk', False)) or (val.get('cp', False) and not val.get('ck', False))
-            want = val['set'] and ((val['flag'] and (val['exists'] or strict)) or (not val['flag'] and val['differ']))
-            nrows += 1
-            rep.evals()
-            if got != want:
-                bad_rows.append((val, got, want))
-        rep.check('lists', '%s: decision table (%d rows) equals the documented rule' % (label, nrows), not bad_rows, ss[0] if ss else pe,
-                  '%s: verdict differs from the documented rule, e.g. %s -> fails=%s, documented=%s' % ((label,) + (bad_rows[0] if bad_rows else ({}, None, None))),
-                  sample={'rule': 'lists', 'field': label, 'rows': nrows, 'atoms': atoms})
-    # pruning of optional host keys: applied to the PEER list
-    ph = [n for n in walk_no_nested(pe) if isinstance(n, ast.Assign) and unparse(n.targets[0]) == 'pruned_host_keys']
-    ok = len(ph) == 2
-    if ok:
-        plain = [n for n in ph if unparse(n.value) == 'kex.key_algorithms']
-        comp = [n for n in ph if isinstance(n.value, ast.ListComp)]
-        ok = len(plain) == 1 and len(comp) == 1
-        if ok:
-            lc = comp[0].value
-            g = lc.generators[0]
-            ok = unparse(g.iter) == 'kex.key_algorithms' and len(g.ifs) == 1 and unparse(g.ifs[0]) == '%s not in self._optional_host_keys' % unparse(g.target) and unparse(lc.elt) == unparse(g.target)
-            conds = [(unparse(t), p) for t, p, k in path_condition(comp[0])]
-            ok = ok and ('self._optional_host_keys is not None', True) in conds and all(c in (('self._optional_host_keys is not None', True), ('kex is None', False)) for c in conds)
-    rep.check('lists', 'optional host keys are pruned from the peer list (not from the policy list)', ok, ph[0] if ph else pe, 'optional-host-key pruning is not `[x for x in peer if x not in optional]`')
-
-    # ---- rule 4: size fields ------------------------------------------------------------------------------------
-    from sa.abseval import track_block, Opaque
-    from sa.core import bind_args as _bind
-
-    def make_hook(env):
-        # a guard may delegate to a small helper method of Policy: it is interpreted on the bound arguments
-        def hook(node):
-            if isinstance(node, ast.Call) and isinstance(node.func, ast.Attribute) and unparse(node.func.value) in ('self', 'Policy'):
-                if repo.has_func('policy', 'Policy.' + node.func.attr):
-                    m = repo.func('policy', 'Policy.' + node.func.attr)
-                    b = _bind(node, m, skip_self=True)
-                    env2 = {k: v for k, v in env.items() if k.startswith('self.')}
-                    for par, a in b.items():
-                        env2[par] = ev(a, env, hook)
-                    env2['<return>'] = None
-                    body = [st for st in m.body if not (isinstance(st, ast.Expr) and isinstance(st.value, ast.Constant))]
-                    track_block(body, env2, {'<return>'}, hook=make_hook(env2))
-                    if isinstance(env2['<return>'], Opaque):
-                        raise Unknown('helper %s not interpretable' % node.func.attr)
-                    return (True, env2['<return>'])
-            return None
-        return hook
-
-    def size_site(label, actual, expected, actual_src, expected_src):
-        ss = sites.get(label, [])
-        rep.check('sizes', '%s: one failing site' % label, len(ss) == 1, ss[0] if ss else pe, '%s has %d failing sites' % (label, len(ss)))
-        if not ss:
-            return
-        c = ss[0]
-        conds = path_condition(c)
-        guard = [t for t, p, k in conds if k == 'if' and actual in uses(t) and expected in uses(t)]
-        if len(guard) != 1:
-            raise AnalysisError('%s: cannot isolate the size guard' % label)
-        g = guard[0]
-        pol = [p for t, p, k in conds if t is g][0]
-        for flag in (False, True):
-            for a, rel in ((9, '<'), (10, '='), (11, '>')):
-                env = {FLAG_LARGER: flag, actual: a, expected: 10}
-                try:
-                    got = bool(ev(g, env, make_hook(env))) == pol
-                except Unknown as e:
-                    raise AnalysisError('%s: size guard not interpretable: %s' % (label, e))
-                want = (flag and a < 10) or (not flag and a != 10)
-                rep.evals()
-                rep.check('sizes', '%s: larger_keys=%s actual%sexpected -> %s' % (label, flag, rel, 'error' if want else 'ok'), got == want, g,
-                          '%s: with allow_larger_keys=%s and actual %s expected the check %s' % (label, flag, rel, 'fails' if got else 'passes'))
-        # operand provenance
-        for var, src in ((actual, actual_src), (expected, expected_src)):
-            ds = [n for n in walk_no_nested(pe) if isinstance(n, ast.Assign) and unparse(n.targets[0]) == var]
-            ok = len(ds) == 1 and src(unparse(ds[0].value))
-            rep.check('sizes', '%s: %s is read from the right side' % (label, var), ok, ds[0] if ds else c, '%s is defined as %s' % (var, unparse(ds[0].value) if ds else '?'))
-        # error arguments
-        ok = actual in uses(c.args[3]) and expected in uses(c.args[1]) and actual not in uses(c.args[1]) and expected not in uses(c.args[3])
-        rep.check('errors', '%s: expected/actual arguments not crossed' % label, ok, c, 'error reports expected=%s actual=%s' % (unparse(c.args[1]), unparse(c.args[3])))
-    size_site('Host key (%s) sizes', 'actual_hostkey_size', 'expected_hostkey_size',
-              lambda s: s == "cast(int, server_host_keys[hostkey_type]['hostkey_size'])", lambda s: s == "cast(int, self._hostkey_sizes[hostkey_type]['hostkey_size'])")
-    size_site('CA signature size (%s)', 'actual_ca_key_size', 'expected_ca_key_size',
-              lambda s: s == "cast(int, server_host_keys[hostkey_type]['ca_key_size'])", lambda s: s == "cast(int, self._hostkey_sizes[hostkey_type]['ca_key_size'])")
-    size_site('Group exchange (%s) modulus sizes', 'actual_dh_modulus_size', 'expected_dh_modulus_size',
-              lambda s: s == 'kex.dh_modulus_sizes()[dh_modulus_type]', lambda s: s == 'self._dh_modulus_sizes[dh_modulus_type]')
-    shk = [n for n in walk_no_nested(pe) if isinstance(n, ast.Assign) and unparse(n.targets[0]) == 'server_host_keys']
-    rep.check('sizes', 'server_host_keys is kex.host_keys()', len(shk) == 1 and unparse(shk[0].value) == 'kex.host_keys()', shk[0] if shk else pe, 'server_host_keys is not kex.host_keys()')
-    # membership guards make the subscripts total and skip absent keys
-    for label, need in (('Host key (%s) sizes', 'hostkey_type in server_host_keys'), ('Group exchange (%s) modulus sizes', 'dh_modulus_type in kex.dh_modulus_sizes()')):
-        for c in sites.get(label, []):
-            conds = [(unparse(t), p) for t, p, k in path_condition(c)]
-            rep.check('sizes', '%s checked only for key types the peer presented' % label, (need, True) in conds, c, '%s: membership guard `%s` missing' % (label, need))
-    # CA: type before size, only when the policy lists a CA
-    ct = sites.get('CA signature type', [])
-    cs = sites.get('CA signature size (%s)', [])
-    if ct and cs:
-        tconds = [(unparse(t), p) for t, p, k in path_condition(ct[0])]
-        sconds = [(unparse(t), p) for t, p, k in path_condition(cs[0])]
-        rep.check('sizes', 'CA type mismatch is tested as `!=` and reported under its own label', ('actual_ca_key_type != expected_ca_key_type', True) in tconds, ct[0], 'CA type test is %s' % tconds[-1:])
-        rep.check('sizes', 'CA size is compared only when the type matched', ('actual_ca_key_type != expected_ca_key_type', False) in sconds, cs[0], 'CA size compared even when the CA type differs (or before it)')
-        need = "self._hostkey_sizes is not None and len(cast(str, self._hostkey_sizes[hostkey_type]['ca_key_type'])) > 0 and (cast(int, self._hostkey_sizes[hostkey_type]['ca_key_size']) > 0)"
-        rep.check('sizes', 'CA checks only when the policy lists a CA (type non-empty and size > 0)', (need, True) in tconds and (need, True) in sconds, ct[0], 'CA guard changed: %s' % [t for t, p in tconds if 'ca_key' in t][:1])
-        c = ct[0]
-        rep.check('errors', 'CA type error: expected/actual not crossed', unparse(c.args[1]) == '[expected_ca_key_type]' and unparse(c.args[3]) == '[actual_ca_key_type]', c, 'CA type error arguments crossed')
-        for var, src in (('actual_ca_key_type', "cast(str, server_host_keys[hostkey_type]['ca_key_type'])"), ('expected_ca_key_type', "cast(str, self._hostkey_sizes[hostkey_type]['ca_key_type'])")):
-            ds = [n for n in walk_no_nested(pe) if isinstance(n, ast.Assign) and unparse(n.targets[0]) == var]
-            rep.check('sizes', '%s read from the right side' % var, len(ds) == 1 and unparse(ds[0].value) == src, ds[0] if ds else pe, '%s defined as %s' % (var, unparse(ds[0].value) if ds else '?'))
-
-    # ---- rule 6: list-field error contents -------------------------------------------------------------------------
-    for label, pfield, peer, exact_peer in LIST_FIELDS:
-        for c in sites.get(label, []):
-            ok = unparse(c.args[1]) == pfield and unparse(c.args[3]) == peer
-            if label == 'Host keys':
-                ok = ok and unparse(c.args[2]) == 'self._optional_host_keys'
-            rep.check('errors', '%s: error carries policy list as expected and peer list as actual' % label, ok, c, '%s error reports expected=%s actual=%s' % (label, unparse(c.args[1]), unparse(c.args[3])))
-    # ---- rule 7: exact fields --------------------------------------------------------------------------------------------
-    for label, pfield, peer in (('Banner', 'self._banner', 'banner_str'), ('Compression', 'self._compressions', 'kex.server.compression')):
-        ss = sites.get(label, [])
-        rep.check('exact', '%s: one failing site' % label, len(ss) == 1, ss[0] if ss else pe, '%s has %d sites' % (label, len(ss)))
-        for c in ss:
-            conds = path_condition(c)
-            flat = ' ; '.join(unparse(t) for t, p, k in conds)
-            rep.check('exact', '%s compared regardless of the relaxation flags' % label, FLAG_SUBSET not in flat and FLAG_LARGER not in flat, c, '%s comparison depends on a relaxation flag' % label)
-            want = '%s is not None and %s != %s' % (pfield, peer, pfield)
-            rep.check('exact', '%s: fails iff set and different' % label, any(unparse(t) == want and p for t, p, k in conds), c, '%s guard is not `%s`' % (label, want))
-            okargs = pfield in uses(c.args[1]) and peer in uses(c.args[3])
-            rep.check('errors', '%s: expected/actual not crossed' % label, okargs, c, '%s error arguments crossed' % label)
-    bs = [n for n in walk_no_nested(pe) if isinstance(n, ast.Assign) and unparse(n.targets[0]) == 'banner_str']
-    rep.check('exact', 'banner_str is str(banner)', len(bs) == 1 and unparse(bs[0].value) == 'str(banner)', bs[0] if bs else pe, 'banner_str changed')
-    # early return when kex is None happens after the banner check only
-    er = [n for n in pe.body if isinstance(n, ast.If) and unparse(n.test) == 'kex is None']
-    rep.check('exact', 'without a kex only the banner is evaluated (early return)', len(er) == 1 and isinstance(er[0].body[-1], ast.Return), er[0] if er else pe, 'kex-is-None early return missing')
-    # ---- rule 5: monotonicity argument recorded -----------------------------------------------------------------------------
-    rep.note('monotonicity: in subset mode every failing condition is (exists x in peer: x not in policy) or the strict-kex clause -- antitone in the peer list except the marker itself; in larger-keys mode the failing condition is actual < expected -- antitone in actual. The forms are verified by rules lists/sizes above.')
